@@ -100,9 +100,9 @@ Fixpoint output_iter_go (c : cfg) (ts : list tree) (fin : res unit) : list chunk
       end
   end.
 
-Definition output_md (c : cfg) (input : str) : list chunk * res unit :=
+Definition output_md_r (c : cfg) (input : str) (k : option nat) : list chunk * res unit :=
   if c_noiter c then
-    match gen_all input with
+    match gen_all_r input k with
     | Err e => ([], Err e)
     | Panic => ([], Panic)
     | Ok ts =>
@@ -117,7 +117,9 @@ Definition output_md (c : cfg) (input : str) : list chunk * res unit :=
         end
     end
   else
-    let '(ts, fin) := gen_stream input in output_iter_go c ts fin.
+    let '(ts, fin) := gen_stream_r input k in output_iter_go c ts fin.
+
+Definition output_md (c : cfg) (input : str) : list chunk * res unit := output_md_r c input None.
 
 (* treeSimple.walk *)
 Definition walk_md (c : cfg) (cb : nat -> bool) (input : str) : list visit * res unit :=
